@@ -235,12 +235,23 @@ def has_false_show_with_element(v, st):
 def nohydrate_marker_conflict(v):
     """matcher of F16: in some parent, a marker emitted inside NoHydrate precedes a hydrated construct that searches for the same kind of marker"""
     def flat(vs, noh):
+        """the constructs that put nodes directly into the same DOM parent, in document order, with their NoHydrate flag: dynamic
+        views, Show and lists are flat in the DOM, so their content belongs to the same parent as their markers"""
         out = []
         for x in vs:
             if x[0] in ("frag", "comp"):
                 out += flat(x[1], noh)
             elif x[0] == "nohydrate":
                 out += flat(x[1], True)
+            elif x[0] == "dyn":
+                out.append((x, noh))
+                out += flat(x[2] + x[3], noh)
+            elif x[0] == "show":
+                out.append((x, noh))
+                out += flat(x[2], noh)
+            elif x[0] == "list":
+                out.append((x, noh))
+                out += flat(x[3], noh)
             else:
                 out.append((x, noh))
         return out
